@@ -118,6 +118,33 @@ def run(ctx):
             and C.in_loop(F, c)]
     if not toks:
         raise AnalysisBroken('no tokeniser call found in the loop of %s' % CHAIN)
+    # what the chain is cut at: ';' between elements and ':' between a name and its argument, nothing else.  A blank
+    # or a comma in a separator set ends an element inside its argument (names with spaces, uid lists).
+    for t in toks:
+        seps = None
+        for a in t.ch[2:]:
+            sa = strip(a) if a is not None else None
+            if sa is None:
+                continue
+            if sa.k == 'StringLiteral':
+                seps = sa.get('s')
+            elif sa.k == 'CharacterLiteral' or ('v' in sa.d and sa.k == 'IntegerLiteral'):
+                seps = chr(sa['v']) if 0 < sa['v'] < 128 else None
+            elif sa.k == 'DeclRefExpr' and seps is None:
+                # a local `char delim[] = ";"`
+                for d in F.local_decls():
+                    if d['id'] == sa['ref'].get('id') and d.get('init', -1) != -1:
+                        ini = strip(F.nodes[d['init']])
+                        if ini is not None and ini.k == 'StringLiteral':
+                            seps = ini.get('s')
+        if seps is None:
+            continue
+        chk.ob('F2', 'chain-cut-only-at-its-separators[%s]' % t.get('callee'), set(seps) <= {';', ':'} and len(set(seps)) == 1,
+               t.where(), F.name,
+               '%s cuts the chain at any of "%s": the documented syntax is filter1:arg;filter2:arg - elements end at ";" only, '
+               'and the name ends at the first ":"; a blank or comma in the set ends an element inside its argument '
+               '("exclude_spawns_of:my daemon", "only_uid:1,2")' % (render(t)[:50], seps),
+               how='separator set "%s"' % seps)
     # the private copy of the chain: the local array filled from the chain parameter.  Pointers into it are
     # element text as well (a hand-written walk over the copy instead of strtok_r)
     chain_copy = set()
